@@ -175,6 +175,8 @@ type Request struct {
 	Target string `json:"target"`         // request-target of the request line
 	Body   string `json:"body,omitempty"` // "" = no body
 	CType  string `json:"ctype,omitempty"`
+	// Headers are further raw header lines ("Name: value").
+	Headers []string `json:"headers,omitempty"`
 	// Synthetic: instead of parsing Target, build the URL with exactly this
 	// Path and RawPath (a request object the net/http server cannot produce; it
 	// models an upstream handler that rewrote the URL inconsistently).
@@ -185,6 +187,9 @@ type Request struct {
 func (r Request) String() string {
 	if r.SynthPath != "" {
 		return fmt.Sprintf("%s URL{Path:%q RawPath:%q} body=%q", r.Method, r.SynthPath, r.SynthRawPath, r.Body)
+	}
+	if len(r.Headers) > 0 {
+		return fmt.Sprintf("%s %s body=%q headers=%q", r.Method, r.Target, r.Body, r.Headers)
 	}
 	return fmt.Sprintf("%s %s body=%q", r.Method, r.Target, r.Body)
 }
@@ -200,12 +205,20 @@ func (r Request) Build() (*http.Request, bool) {
 		if r.CType != "" {
 			req.Header.Set("Content-Type", r.CType)
 		}
+		for _, h := range r.Headers {
+			if i := strings.Index(h, ":"); i > 0 {
+				req.Header.Add(strings.TrimSpace(h[:i]), strings.TrimSpace(h[i+1:]))
+			}
+		}
 		return req, true
 	}
 	var sb strings.Builder
 	fmt.Fprintf(&sb, "%s %s HTTP/1.1\r\nHost: keyper.example\r\n", r.Method, r.Target)
 	if r.CType != "" {
 		fmt.Fprintf(&sb, "Content-Type: %s\r\n", r.CType)
+	}
+	for _, h := range r.Headers {
+		fmt.Fprintf(&sb, "%s\r\n", h)
 	}
 	if r.Body != "" {
 		fmt.Fprintf(&sb, "Content-Length: %d\r\n", len(r.Body))
